@@ -65,6 +65,8 @@ def fixed_family():
         ("B", "1", 1, "b", [("9", 9), ("0b1101", 13), ("14", 14)]),
         ("C", "2", 2, None, []),
     ]))
+    # an alternative pattern wider than the largest discriminant: the width still comes from the discriminants alone
+    F.append(mk("AltWide", None, [("A", "0", 0, None, [("0b0111", 7)]), ("C", "1", 1, None, []), ("G", "2", 2, None, []), ("T", "3", 3, None, [])]))
     F.append(mk("Bits7", 7, [("X", "64", 64, "x", []), ("Y", "1", 1, None, [("65", 65)])]))
     F.append(mk("Sixteen", None, [(UP[i], lit(i, "dec"), i, None, []) for i in range(16)]))
     v40 = [(UP[i] + "v", lit(i, "u8" if i % 3 == 0 else "dec"), i, None, []) for i in range(26)]
